@@ -10,6 +10,10 @@
 (*                                         one (second level)                 *)
 (*   "shown":[{ch,from,to,id,body,type,fwd}..]}  what the application saw,    *)
 (*                                         per channel, in order              *)
+(* and one line per change of account on the live client object:              *)
+(*  {"e":"Reconfigure","j":jid config,"how":..,"own":new bare,"prev":old bare} *)
+(* The sender class c of a Recv line is relative to the JID configured at that *)
+(* moment (x.own); PreviousOwnBare is the bare JID configured before.          *)
 (* c/w/i and x/inners/never are inputs chosen by the harness; `shown` is the  *)
 (* observation.  ids and bodies of outer, inner and second-level messages are *)
 (* pairwise distinct tokens, so a message shown can be attributed.            *)
@@ -25,14 +29,14 @@ EXTENDS Carbons, Integers, Json, CSV, IOUtils   \* FiniteSets comes with Carbons
 
 TraceLog == ndJsonDeserialize(IOEnv.QXV_TRACE)
 
-VARIABLES l, cid, viol, nviol, ndiv, divs, dflag, ncases, nunwrapped, nouter
+VARIABLES l, cid, viol, nviol, ndiv, divs, dflag, ncases, nunwrapped, nouter, nreconf, nprevown
 
-tvars == <<vars, l, cid, viol, nviol, ndiv, divs, dflag, ncases, nunwrapped, nouter>>
+tvars == <<vars, l, cid, viol, nviol, ndiv, divs, dflag, ncases, nunwrapped, nouter, nreconf, nprevown>>
 
 TInit ==
     /\ Init /\ gen = "v2" /\ jidcfg = "plain"
     /\ l = 1 /\ cid = "" /\ viol = {} /\ nviol = 0 /\ ndiv = 0 /\ divs = <<>> /\ dflag = FALSE /\ ncases = 0
-    /\ nunwrapped = 0 /\ nouter = 0
+    /\ nunwrapped = 0 /\ nouter = 0 /\ nreconf = 0 /\ nprevown = 0
 
 SeqRange(s) == {s[k] : k \in 1..Len(s)}
 
@@ -76,22 +80,27 @@ Proj == [what |-> last.what, fwd |-> last.fwd,
          dir |-> IF gen = "v1" /\ last.what = "inner" THEN last.dir ELSE "na"]
 
 ModelAct(ev) ==
-    CASE ev.e = "Recv" -> Recv(ev.c, ev.w, ev.i)
-      [] OTHER         -> FALSE
+    CASE ev.e = "Recv"        -> Recv(ev.c, ev.w, ev.i)
+      [] ev.e = "Reconfigure" -> Reconfigure(ev.j, ev.how)
+      [] OTHER                -> FALSE
 
 ResetStep(ev) ==
     /\ Reinit(ev.gen, ev.jidcfg)
     /\ cid' = ev.case /\ dflag' = FALSE /\ ncases' = ncases + 1
-    /\ UNCHANGED <<viol, nviol, ndiv, divs, nunwrapped, nouter>>
+    /\ UNCHANGED <<viol, nviol, ndiv, divs, nunwrapped, nouter, nreconf, nprevown>>
 
 OpStep(ev) ==
     /\ \/ ModelAct(ev)
        \/ (~ENABLED ModelAct(ev)) /\ UNCHANGED vars
     \* one record per (property, generation, sender class, wrapper): the first line that shows it
-    /\ viol' = viol \cup {[case |-> cid, line |-> l, prop |-> p, gen |-> gen, c |-> ev.c, w |-> ev.w, i |-> ev.i] :
-                              p \in {q \in Failed(ev) : ~\E v \in viol : v.prop = q /\ v.gen = gen /\ v.c = ev.c /\ v.w = ev.w}}
+    /\ viol' = viol \cup {[case |-> cid, line |-> l, prop |-> p, gen |-> gen, c |-> ev.c, w |-> ev.w, i |-> ev.i,
+                            own |-> jidcfg, how |-> lasthow] :
+                              p \in {q \in Failed(ev) : ~\E v \in viol : v.prop = q /\ v.gen = gen /\ v.c = ev.c /\ v.w = ev.w
+                                                                           /\ v.how = lasthow}}
     /\ nviol' = nviol + Cardinality(Failed(ev))
     /\ nunwrapped' = nunwrapped + (IF ObsWhat(ev) = "inner" THEN 1 ELSE 0)
+    /\ nprevown' = nprevown + (IF ev.c = "PreviousOwnBare" /\ IsCarbon(ev.w) THEN 1 ELSE 0)
+    /\ UNCHANGED nreconf
     /\ nouter' = nouter + (IF ObsWhat(ev) = "outer" THEN 1 ELSE 0)
     /\ LET d == Proj' # Obs(ev) IN
         /\ dflag' = (dflag \/ d)
@@ -100,17 +109,25 @@ OpStep(ev) ==
                    THEN Append(divs, [case |-> cid, line |-> l, c |-> ev.c, w |-> ev.w, model |-> Proj', impl |-> Obs(ev)]) ELSE divs
     /\ UNCHANGED <<cid, ncases>>
 
+\* the application switched accounts: the model follows, nothing is judged
+ReconfStep(ev) ==
+    /\ \/ ModelAct(ev)
+       \/ (~ENABLED ModelAct(ev)) /\ UNCHANGED vars
+    /\ nreconf' = nreconf + 1
+    /\ UNCHANGED <<cid, viol, nviol, ndiv, divs, dflag, ncases, nunwrapped, nouter, nprevown>>
+
 TNext ==
     /\ l <= Len(TraceLog)
     /\ l' = l + 1
     /\ LET ev == TraceLog[l] IN
         IF ev.e = "Reset" THEN ResetStep(ev)
         ELSE IF ev.e = "Recv" THEN OpStep(ev)
-        ELSE UNCHANGED <<vars, cid, viol, nviol, ndiv, divs, dflag, ncases, nunwrapped, nouter>>   \* e.g. a "Crash" marker
+        ELSE IF ev.e = "Reconfigure" THEN ReconfStep(ev)
+        ELSE UNCHANGED <<vars, cid, viol, nviol, ndiv, divs, dflag, ncases, nunwrapped, nouter, nreconf, nprevown>>   \* e.g. a "Crash" marker
 
 TSpec == TInit /\ [][TNext]_tvars
 
 Summary == [cases |-> ncases, lines |-> l - 1, viol |-> viol, nviol |-> nviol, ndiv |-> ndiv, divs |-> divs,
-            unwrapped |-> nunwrapped, outer |-> nouter]
+            unwrapped |-> nunwrapped, outer |-> nouter, reconfigured |-> nreconf, prevowncarbons |-> nprevown]
 Done == l <= Len(TraceLog) \/ CSVWrite("%1$s", <<ToJson(Summary)>>, IOEnv.QXV_SUMMARY)
 =============================================================================
